@@ -19,7 +19,9 @@ def render(struct_seed, layout_seed, depth, rich):
 class P:
     id = "C09"
     rule = ("each generated program structure (depth 1-3, same generator as C02/C05) is rendered twice from the same structural random stream: once "
-            "with the plain layout and once with a rich layout drawn from an independent layout stream; plus a second pair of two rich layouts. "
+            "with the plain layout and once with a rich layout drawn from an independent layout stream; plus pairs of grammar derivations that share "
+            "the structural stream but draw the newline tokens of every linebreak position, the ';' / newline choice of every separator and the "
+            "blank / comment / continuation layout from independent streams. "
             "Non-trivial = the two renderings differ textually; distinct pairs counted")
     assumptions = ["layout choices never change the structural random stream (checked by construction of the generator: layout draws come from a separate PRNG)"]
     exhaustive = False
@@ -40,9 +42,29 @@ class P:
             cb = re.findall(r"#([^\n]*)", b)
             cases.append("%s\t\t%s\t%s" % (hx(a), hx(b), ",".join("c" + hx(x) for x in cb)))
 
+        # derivations: the same structure with independent choices of newline tokens at every linebreak position and of ';' versus
+        # newline separators, rendered under independent blank/comment/continuation layouts
+        from props import dgen as D
+        dcases = []
+        for _ in range(n):
+            ss = rnd.getrandbits(48)
+            d = rnd.choice([1, 2, 2, 3])
+            pair = []
+            for _k in range(2):
+                lay = random.Random(rnd.getrandbits(48))
+                g = D.DGen(random.Random(ss), layout=lay, nl=random.Random(rnd.getrandbits(48)))
+                text, comments, _hs = D.render(g.program(d), lay, rich=True)
+                pair.append((text, comments))
+            (a, ca), (b, cb) = pair
+            dcases.append("%s\t%s\t%s\t%s" % (hx(a), ",".join("c" + hx(x) for x in ca), hx(b), ",".join("c" + hx(x) for x in cb)))
+
         def impl_ok(c, o):
             return o.startswith(("ok", "skip"))
-        return [{"name": "layout-pairs", "harness": "layout", "driver": None, "cases": cases, "impl_ok": impl_ok,
+        # a derivation is a sentence by construction (C02 checks that): a rendering that is rejected is a failure, not a skip
+        return [{"name": "derivation-layout-pairs", "harness": "layout", "driver": None, "cases": dcases, "impl_ok": lambda c, o: o == "ok",
+                 "nontrivial": lambda c: c.split("\t")[0] != c.split("\t")[2],
+                 "distribution": {"pairs": len(dcases)}},
+                {"name": "layout-pairs", "harness": "layout", "driver": None, "cases": cases, "impl_ok": impl_ok,
                  "nontrivial": lambda c: c.split("\t")[0] != c.split("\t")[2],
                  "distribution": {"pairs": len(cases)}}]
 
